@@ -102,8 +102,18 @@ def _find_position(f: ast.FunctionDef) -> str:
             f"  | None => ({t.body[0].value.value})\n  | Some position => position\n  end")
 
 
+def _dispatch(tree, method: str, func: str):
+    """prepend_collection_chain / extend_collection_chain hand the expected position function to _add_to_collection_chain"""
+    body = _strip_doc(_find_method(tree, CLS, method).body)
+    want = f"self._add_to_collection_chain(parent_collection_name, child_collection_names, self.{func})"
+    if len(body) != 1 or ast.unparse(body[0]) != want:
+        raise Untranslatable(f"{method}: body is {[ast.unparse(b) for b in body]!r}, expected {want!r}")
+
+
 def translate() -> dict[str, str]:
     tree = ast.parse((PKG / FILE).read_text())
+    _dispatch(tree, "prepend_collection_chain", "_find_prepend_position")
+    _dispatch(tree, "extend_collection_chain", "_find_extend_position")
     pre = _single_return(_find_method(tree, CLS, "_find_prepend_position"))
     ext = _single_return(_find_method(tree, CLS, "_find_extend_position"))
     pos = _find_position(_find_method(tree, CLS, "_find_position_in_collection_chain"))
